@@ -36,6 +36,7 @@ type pubIn struct {
 }
 
 func mkPub(in pubIn) *mq.Publish {
+	resetGlobals()
 	p := mq.NewPublish()
 	if in.Topic {
 		p.SetTopicName("a/b")
@@ -156,6 +157,7 @@ func mkFilter(f filtIn) mq.TopicFilter {
 }
 
 func c17Sub(in subIn, decoded bool) *core.Finding {
+	resetGlobals()
 	p := mq.NewSubscribe()
 	p.SetPacketID(3)
 	if in.SubID >= 0 {
